@@ -27,7 +27,18 @@ pub fn install_panic_hook() {
         };
         let loc = info.location().map(|l| format!("{}:{}", l.file(), l.line())).unwrap_or_default();
         LAST_PANIC.with(|p| *p.borrow_mut() = Some(format!("{msg} @ {loc}")));
+        if let Ok(mut g) = ALL_PANICS.lock() {
+            if g.len() < 64 {
+                g.push(format!("{msg} @ {loc}"));
+            }
+        }
     }));
+}
+
+/// panics of every thread of the process (server worker threads included) since the last call
+static ALL_PANICS: std::sync::Mutex<Vec<String>> = std::sync::Mutex::new(Vec::new());
+pub fn drain_all_panics() -> Vec<String> {
+    ALL_PANICS.lock().map(|mut g| std::mem::take(&mut *g)).unwrap_or_default()
 }
 
 pub fn take_last_panic() -> Option<String> {
